@@ -1,3 +1,4 @@
 SPECIFICATION Spec
+CONSTANT TrackPrev = TRUE
 CONSTANT KS = {1}
 CHECK_DEADLOCK FALSE
